@@ -21,7 +21,7 @@ GROUPS = {
         U("digraph", "SimpleQuery", "leaf_nodes"), U("digraph", "SimpleQuery", "debug_nodes"), U("digraph", "SimpleQuery", "setup_nodes"),
         U("digraph", "SimpleQuery", "single_node_successors"), U("digraph", "SimpleQuery", "multiple_nodes_successors"), U("digraph", "SimpleQuery", "ancestors_of_iter"),
         U("digraph", "MinimalInducedSubgraph"), U("digraph", "MakeSubgraph"), U("digraph", "IncludeDebugNodes"), U("digraph", "ExtendGraphWithDebugNodes"),
-        U("digraph", "AssignCompoundPriority"), U("digraph", "RemoveAnyRootNode"),
+        U("digraph", "AssignCompoundPriority"), U("digraph", "RemoveAnyRootNode"), U("digraph", "GetTaggedNodes"),
     ],
     "values": [
         U("values", "XnActiveInCall"), U("values", "UxnResult"), U("values", "UxnGetitem"), U("values", "ExtendResultsWithArgs"),
